@@ -29,6 +29,10 @@ func (p *PoolAllocator[T]) Get() *Buffer[T] {
 
 func (p *PoolAllocator[T]) Put(b *Buffer[T]) {
 	mustSame(p.alloc.Capacity*p.alloc.Channels, b.Cap(), diffCapacity)
+	// zero the whole capacity and restore the allocator's length, so that
+	// the buffer is handed out again as if it was freshly allocated.
+	b.data = b.data[:cap(b.data)]
 	b.clear()
+	b.data = b.data[:p.alloc.Channels*p.alloc.Length]
 	p.pool.Put(b)
 }
